@@ -128,6 +128,16 @@ fn establish_case(c: &mut Ctx, m: &'static Merchant, other: &'static Merchant, n
         Err(e) => c.inconclusive(&e),
     }
     subs.push(("other-merchant".into(), init_accepts(other, &mut rng, &cid, cust, merch, &proof, &ctx)));
+    // a merchant key differing from the right one in a single element
+    if let Ok(patoms) = crate::props::c12::parameter_atoms(m, usize::MAX) {
+        for (which, fpath, kind, orig) in patoms.iter().filter(|p| p.0 == "key") {
+            let Some(alt) = crate::wire::alt_valid(*kind, orig, &mut rng) else { continue };
+            match crate::props::c12::config_with_atom(m, which, fpath, &alt) {
+                Ok(mx) => subs.push((format!("merchant-key-element:{}", fpath), init_accepts(mx, &mut rng, &cid, cust, merch, &proof, &ctx))),
+                Err(e) => c.inconclusive(&e),
+            }
+        }
+    }
     for (k, r) in subs {
         c.eval();
         c.distinct(&format!("establish/{}/{}", k, class_u64(cust)));
@@ -171,6 +181,15 @@ fn pay_case(c: &mut Ctx, m: &'static Merchant, other: &'static Merchant, name: &
         match near_range_config(m, k, &mut rng) {
             Ok(mx) => subs.push((format!("range-parameters-digit-signature-{}-rerandomised", k), pay_accepts(mx, &mut rng, amt, &nonce, &proof, &ctx))),
             Err(e) => c.inconclusive(&e),
+        }
+    }
+    if let Ok(patoms) = crate::props::c12::parameter_atoms(m, usize::MAX) {
+        for (which, fpath, kind, orig) in patoms.iter().filter(|p| p.0 == "key") {
+            let Some(alt) = crate::wire::alt_valid(*kind, orig, &mut rng) else { continue };
+            match crate::props::c12::config_with_atom(m, which, fpath, &alt) {
+                Ok(mx) => subs.push((format!("merchant-key-element:{}", fpath), pay_accepts(mx, &mut rng, amt, &nonce, &proof, &ctx))),
+                Err(e) => c.inconclusive(&e),
+            }
         }
     }
     let n = crate::refs::sc(&nonce).unwrap_or(Scalar::zero());
@@ -449,6 +468,41 @@ fn closing_case(c: &mut Ctx, m: &'static Merchant, name: &str) {
                     Ok(false) => c.count("substituted_closing_rejected[balance+-1]", 1),
                     Ok(true) => c.violation(&format!("C06 closing-message-accepted-with-substituted field={} from=near-value", f), json!({"message": k})),
                     Err(_) => {}
+                }
+            }
+        }
+    }
+    // a closing signature randomised with a zero randomiser is the all-identity pair; as an in-memory
+    // object (it does not decode from the wire) it must fail the close check on every close state
+    {
+        use crate::srng::ScriptRng;
+        let mut frng = Ctx::fixture_rng(c.seed, &format!("{}/degenerate", name));
+        if let Ok(s) = Sess::open(m, &mut frng, 70, 30, b"degenerate") {
+            let mut zr = ScriptRng::new([5u8; 32]);
+            zr.inject(0, vec![0u8; 64]);
+            if let Ok(Some(cm0)) = s.stage.close_from_copy(&mut zr) {
+                let is_id = enc(&cm0)[..48] == crate::wire::g1_identity_bytes()[..];
+                if zr.consumed == 1 && is_id {
+                    let (sig0, st0) = cm0.into_parts();
+                    let mut states = vec![("own close state".to_string(), st0)];
+                    for (k, t) in traces.iter().take(6) {
+                        if let Ok(cmx) = dec::<ClosingMessage>(&t.bytes) {
+                            states.push((k.clone(), cmx.into_parts().1));
+                        }
+                    }
+                    for (k, st) in states {
+                        c.eval();
+                        c.distinct(&format!("closing/degenerate-signature/{}", k.split('@').last().unwrap_or("own")));
+                        match m.cfg.check_close_signature(sig0.clone(), &st) {
+                            Verification::Failed => c.count("degenerate_closing_signature_rejected", 1),
+                            Verification::Verified => c.violation(
+                                "C06 closing-message-accepted-with-substituted field=close_signature from=zero-randomiser(all-identity, in memory)",
+                                json!({"close_state_of": k}),
+                            ),
+                        }
+                    }
+                } else {
+                    c.count("degenerate_closing_signature_not_produced", 1);
                 }
             }
         }
